@@ -132,10 +132,16 @@ void harness (void)
   for (i = 0; i < (int) sizeof (SIG); i++) VF_ASSERT (rs->str[i] == (unsigned char) sig[i], "the writer records exactly the signature of what was written");
   VF_ASSERT (len == epos, "body length equals the specification's encoding length");
   for (i = 0; i < epos; i++) VF_ASSERT (rb->str[i] == exp[i], "body equals the specification's encoding byte for byte (values, zero padding, array lengths, inline variant signatures)");
+#ifndef NOVALIDATE
   VF_ASSERT (_dbus_validate_body_with_reason (&sigstr, 0, ORDER == 'l' ? DBUS_LITTLE_ENDIAN : DBUS_BIG_ENDIAN, NULL, &body, 0, len) == DBUS_VALID, "the library's validator accepts what the writer produced");
+#endif
+#ifndef NOREAD
   _dbus_type_reader_init (&r, ORDER == 'l' ? DBUS_LITTLE_ENDIAN : DBUS_BIG_ENDIAN, &sigstr, 0, &body, 0);
   for (q = 0; sig[q]; q += sct_len (sig, q)) { R (&r, sig, q); _dbus_type_reader_next (&r); }
   VF_ASSERT (_dbus_type_reader_get_current_type (&r) == DBUS_TYPE_INVALID, "nothing follows the values written");
+#endif
+#if !defined (NOREAD)
   VF_ASSERT (kW == kE && kE == kR && sW == sE && sE == sR, "all three walks consumed the same values");
+#endif
   VF_WITNESS ("end of harness reached");
 }
